@@ -21,6 +21,9 @@ type SelOpts struct {
 	// and float texts, so sum/min/max are integers in some groups and floats
 	// in others (no reference value; metamorphic / differential checks only)
 	MixedNumeric bool
+	// NameChains: half of the statements get a chain of name-only fields
+	// (otherwise one in eight)
+	NameChains bool
 }
 
 var aliasPrefix = map[Ty]string{
@@ -183,7 +186,11 @@ func GenSelect(t *rapid.T, kind StoreKind, pairs []Pair, o SelOpts) *Stmt {
 				}
 			}
 		}
-		if o.Aliases && !st.Star && rapid.IntRange(0, 7).Draw(t, "nameChain") == 0 {
+		chainOdds := 7
+		if o.NameChains {
+			chainOdds = 1
+		}
+		if o.Aliases && !st.Star && rapid.IntRange(0, chainOdds).Draw(t, "nameChain") == 0 {
 			genNameChain(t, c, st)
 		}
 		st.Where = c.GenWhere(t, rapid.IntRange(0, 3).Draw(t, "whereDepth"))
@@ -214,6 +221,15 @@ func genNameChain(t *rapid.T, c *GenCtx, st *Stmt) {
 		return
 	}
 	base := rapid.SampledFrom(bases).Draw(t, "chainBase")
+	// a concatenation that starts with a name is a text only once the name is
+	// resolved: one chain in three ends in such a field (added behind the
+	// field it uses) when a text name is there to build it on
+	if refs := c.refsOf(TyText); len(refs) > 0 && rapid.IntRange(0, 2).Draw(t, "chainOnConcat") == 0 {
+		e := Bin("+", Ref(rapid.SampledFrom(refs).Draw(t, "concatRef"), TyText), Str(rapid.SampledFrom([]string{"x", "", "0"}).Draw(t, "concatLit")))
+		base = SelField{E: e, Alias: "zc"}
+		st.Fields = append(st.Fields, base)
+		c.addAlias("zc", e)
+	}
 	prev := base.Alias
 	k := rapid.IntRange(2, 4).Draw(t, "chainLen")
 	for i := 1; i <= k; i++ {
